@@ -109,9 +109,13 @@ def unpack_obs(clause_text, buffer):
 
 
 _SHARED = {}
-# data names for the schema/nav path: a plain one and names that BEGIN with a USAGE keyword followed by a hyphen
-# (legal COBOL; estruct re-parses the whole DDE text and the explicit USAGE clause after the name must win)
-NAMES = ["FLD", "COMP-AMOUNT", "BINARY-FLAG", "DISPLAY-TOTAL", "PACKED-DECIMAL-QTY", "COMP-3-TOTAL", "AMOUNT"]
+# data names for the schema/nav path: plain ones and names that hold a USAGE word, PIC / PICTURE or USAGE / IS at the START
+# (followed by a hyphen), in the MIDDLE and at the END, in upper and mixed case (legal COBOL; estruct re-parses the whole DDE
+# text: only the item's own USAGE and PICTURE clauses may decide - with an explicit USAGE clause and without one)
+NAMES = ["FLD", "COMP-AMOUNT", "BINARY-FLAG", "DISPLAY-TOTAL", "PACKED-DECIMAL-QTY", "COMP-3-TOTAL", "AMOUNT",
+         "EMP-COMPANY", "WS-COMP-DATE", "TOT-BINARY-CT", "USE-DISPLAY", "ELEMENTARY-PIC", "N-COMP-3", "OLD-COMPUTATIONAL-1",
+         "YTD-PACKED-DECIMAL", "X-PICTURE", "NON-USAGE-COMP-3", "IS-BINARY-SW", "Emp-COMP-Nm", "ws-BINARY", "COMP-4-CT", "PIC-9",
+         "THIS-IS", "USAGE-COMP-CT"]
 _count = [0]
 
 
